@@ -661,7 +661,10 @@ func (p *Program) callResult(out Prov, call *ssa.Call, idx int, path string, dep
 		// receiver of external interface: keeper dependencies are not data
 		if !strings.Contains(c.Value.Type().String(), "Keeper") && !strings.Contains(c.Value.Type().String(), "codec") && !strings.Contains(c.Value.Type().String(), "Subspace") {
 			p.provInto(out, c.Value, "", depth)
+			p.objectInputs(out, c.Value, call, depth)
 		}
+	} else if c.Signature().Recv() != nil && len(c.Args) > 0 {
+		p.objectInputs(out, c.Args[0], call, depth)
 	}
 	for _, a := range c.Args {
 		if isCtxType(a.Type()) {
@@ -699,4 +702,58 @@ func (p *Program) CallerArgProv(fn *ssa.Function, idx int, path string) Prov {
 		}
 	}
 	return out
+}
+
+// objectInputs: a stateful external object (hash, buffer, builder) accumulates what earlier calls fed into it:
+// the provenance of obj at `at` includes the other arguments of every call that may reach `at` and takes obj
+// as receiver or argument (h.Write(x), io.WriteString(h, s), b.WriteString(s)).
+func (p *Program) objectInputs(out Prov, obj ssa.Value, at ssa.Instruction, depth int) {
+	switch obj.(type) {
+	case *ssa.Call, *ssa.Extract, *ssa.Alloc, *ssa.MakeInterface, *ssa.Phi:
+	default:
+		return
+	}
+	seen := map[ssa.Value]bool{}
+	var walk func(v ssa.Value)
+	walk = func(v ssa.Value) {
+		if seen[v] || v.Referrers() == nil {
+			return
+		}
+		seen[v] = true
+		for _, r := range *v.Referrers() {
+			switch x := r.(type) {
+			case *ssa.MakeInterface:
+				walk(x)
+			case *ssa.ChangeInterface:
+				walk(x)
+			case ssa.CallInstruction:
+				if x == at || !p.mayReach(x, at) {
+					continue
+				}
+				c := x.Common()
+				if _, isB := c.Value.(*ssa.Builtin); isB {
+					continue
+				}
+				if len(p.Callees(x)) > 0 {
+					continue
+				}
+				uses := c.IsInvoke() && c.Value == v
+				for _, a := range c.Args {
+					if a == v {
+						uses = true
+					}
+				}
+				if !uses {
+					continue
+				}
+				for _, a := range c.Args {
+					if a == v || isCtxType(a.Type()) {
+						continue
+					}
+					p.provInto(out, a, "", depth)
+				}
+			}
+		}
+	}
+	walk(obj)
 }
